@@ -16,6 +16,18 @@ package main
 //             formed (cross-checks Rpm.pkg_ok, the hypothesis of the theorems)
 //   report    input = package description, impl = file.RPMFile on the Go writer's bytes
 //             (cross-checks Rpm.report, the right-hand side of C19_faithful)
+//   gencode   input = layout description (lead, two arbitrary (index, store) pairs, padding,
+//             payload), impl = the Go writer's bytes (cross-checks Rpm.gencode)
+//   gwf       input = (layout, packets under the four signature tags), impl = 1 (cross-checks
+//             Rpm.gpkg_ok / gsigs_ok, the hypotheses of the *_layout theorems)
+//   greport   same input, impl = file.RPMFile on the bytes (cross-checks Rpm.greport)
+//   layout    input = (data declared-headers), impl = go-rpm's parse; the spec checker demands for
+//             every declared entry the typed value that lies at its declared offset
+//   gsigenc / gsigwf / gsigview   input = signature packet description (header form, version,
+//             subpacket lists, MPIs with bit counts), impl = the Go writer's bytes / 1 / packet.Read
+//             on them (cross-check Rpm.gencode_sig, gsig_ok, gsig_view)
+//   sigpkt    input = (bytes oracle truth), impl = packet.Read; the spec checker compares version,
+//             algorithm, hash and issuer with what the generator stored
 //   alloc     input = (data), impl = (outcome MiB-allocated) measured in-process on inputs
 //             whose length fields are moderately large           [oracle only]
 //   isolated  input = (data), impl = outcome of inspecting the file in a worker child with a
@@ -640,6 +652,760 @@ func c19Alloc(c *Ctx, tag string, data []byte) {
 	c.Emit("alloc:"+tag, SL{SB(data)}, SL{o[0], I(int((m1.TotalAlloc - m0.TotalAlloc) >> 20))})
 }
 
+// ---------------------------------------------------------------- signature packets in every form
+
+// a signature subpacket: length form (1, 2 or 5 octets), type octet (critical bit included), body
+type subPkt struct {
+	Form int
+	Type byte
+	Data []byte
+}
+
+func (sp subPkt) bytes() []byte {
+	n := len(sp.Data) + 1
+	var out []byte
+	switch sp.Form {
+	case 1:
+		out = []byte{byte(n)}
+	case 2:
+		out = []byte{byte(192 + (n-192)>>8), byte(n - 192)}
+	default:
+		out = append([]byte{255}, be32(uint32(n))...)
+	}
+	return append(append(out, sp.Type), sp.Data...)
+}
+
+// mkSub picks a length form that can express the length: the shortest one, or a longer one
+func mkSub(r *Rng, typ byte, data []byte) subPkt {
+	n := len(data) + 1
+	form := 1
+	if n >= 192 {
+		form = 2
+	}
+	if n >= 16320 || r.Intn(6) == 0 {
+		form = 5
+	}
+	return subPkt{Form: form, Type: typ, Data: data}
+}
+
+func subsBytes(l []subPkt) []byte {
+	var out []byte
+	for _, sp := range l {
+		out = append(out, sp.bytes()...)
+	}
+	return out
+}
+
+func subsSx(l []subPkt) Sx {
+	out := SL{}
+	for _, sp := range l {
+		out = append(out, SL{I(sp.Form), I(int(sp.Type)), SB(sp.Data)})
+	}
+	return out
+}
+
+// packet header form: Kind 0 old format (Lt 0..3), 1 new format (F = 1, 2, 5 octets),
+// 2 new format with partial body lengths 2^k for k in Ks, then a final length of F octets
+type pForm struct {
+	Kind, Lt, F int
+	Ks          []int
+}
+
+func (f pForm) sx() Sx {
+	switch f.Kind {
+	case 0:
+		return SL{I(0), I(f.Lt)}
+	case 1:
+		return SL{I(1), I(f.F)}
+	}
+	ks := SL{}
+	for _, k := range f.Ks {
+		ks = append(ks, I(k))
+	}
+	return SL{I(2), ks, I(f.F)}
+}
+
+func newLenForm(f, n int) []byte {
+	switch f {
+	case 1:
+		return []byte{byte(n)}
+	case 2:
+		return []byte{byte(192 + (n-192)>>8), byte(n - 192)}
+	}
+	return append([]byte{255}, be32(uint32(n))...)
+}
+
+// the shortest new-format length form for n, or (one time in four) the five-octet one
+func pickNewForm(r *Rng, n int) int {
+	if r.Intn(4) == 0 || n >= 8384 {
+		return 5
+	}
+	if n >= 192 {
+		return 2
+	}
+	return 1
+}
+
+func (f pForm) wrap(body []byte) []byte {
+	switch f.Kind {
+	case 0:
+		out := []byte{byte(0x88 + f.Lt)}
+		switch f.Lt {
+		case 0:
+			out = append(out, byte(len(body)))
+		case 1:
+			out = append(out, be16(len(body))...)
+		case 2:
+			out = append(out, be32(uint32(len(body)))...)
+		}
+		return append(out, body...)
+	case 1:
+		return append(append([]byte{0xC2}, newLenForm(f.F, len(body))...), body...)
+	}
+	out := []byte{0xC2}
+	for _, k := range f.Ks {
+		out = append(out, byte(224+k))
+		out = append(out, body[:1<<uint(k)]...)
+		body = body[1<<uint(k):]
+	}
+	return append(append(out, newLenForm(f.F, len(body))...), body...)
+}
+
+func randPForm(r *Rng, n int) pForm {
+	switch r.Intn(8) {
+	case 0:
+		if n < 256 {
+			return pForm{Kind: 0, Lt: 0}
+		}
+		return pForm{Kind: 0, Lt: 1}
+	case 1:
+		return pForm{Kind: 0, Lt: 1}
+	case 2:
+		return pForm{Kind: 0, Lt: 2}
+	case 3:
+		return pForm{Kind: 0, Lt: 3}
+	case 4, 5:
+		return pForm{Kind: 1, F: pickNewForm(r, n)}
+	}
+	f := pForm{Kind: 2}
+	left := n
+	for len(f.Ks) < 6 {
+		k := r.Intn(8)
+		if 1<<uint(k) > left || r.Intn(4) == 0 {
+			break
+		}
+		f.Ks = append(f.Ks, k)
+		left -= 1 << uint(k)
+	}
+	f.F = pickNewForm(r, left)
+	return f
+}
+
+type gSig struct {
+	Form           pForm
+	Version        byte
+	SigType        byte
+	Algo, Hash     byte
+	Created        uint32
+	Issuer         uint64
+	Hashed, Unhash []subPkt
+	HashTag        [2]byte
+	MPIs           [][]byte
+	Bits           []int // the bit count written in front of each MPI (RFC 4880 3.2)
+}
+
+func (s gSig) mpis() []byte {
+	var out []byte
+	for i, x := range s.MPIs {
+		out = append(append(out, be16(s.Bits[i])...), x...)
+	}
+	return out
+}
+
+func (s gSig) body() []byte {
+	var b []byte
+	if s.Version < 4 {
+		b = append(b, s.Version, 5, s.SigType)
+		b = append(b, be32(s.Created)...)
+		b = append(b, be64(s.Issuer)...)
+		b = append(b, s.Algo, s.Hash)
+	} else {
+		h, u := subsBytes(s.Hashed), subsBytes(s.Unhash)
+		b = append(b, 4, s.SigType, s.Algo, s.Hash)
+		b = append(append(b, be16(len(h))...), h...)
+		b = append(append(b, be16(len(u))...), u...)
+	}
+	b = append(b, s.HashTag[:]...)
+	return append(b, s.mpis()...)
+}
+
+func (s gSig) bytes() []byte { return s.Form.wrap(s.body()) }
+
+func (s gSig) sx() Sx {
+	m := SL{}
+	for i, x := range s.MPIs {
+		m = append(m, SL{I(s.Bits[i]), SB(x)})
+	}
+	return SL{s.Form.sx(), I(int(s.Version)), I(int(s.SigType)), I(int(s.Algo)), I(int(s.Hash)), SB(be32(s.Created)), SB(be64(s.Issuer)),
+		subsSx(s.Hashed), subsSx(s.Unhash), SB(s.HashTag[:]), m}
+}
+
+// the issuer the packet stores: the fixed field (version 2/3); the last issuer subpacket,
+// hashed area first (version 4)
+func (s gSig) storedIssuer() Sx {
+	if s.Version < 4 {
+		return SL{SB(be64(s.Issuer))}
+	}
+	var out Sx = SL{}
+	for _, l := range [][]subPkt{s.Hashed, s.Unhash} {
+		for _, sp := range l {
+			if sp.Type&0x7f == 16 {
+				out = SL{SB(sp.Data)}
+			}
+		}
+	}
+	return out
+}
+
+// for the spec checker: (algo hash-id (issuer)?) and (version algo hash-id (issuer)?)
+func (s gSig) truth() Sx { return SL{I(int(s.Algo)), I(int(s.Hash)), s.storedIssuer()} }
+func (s gSig) pktTruth() Sx {
+	return SL{I(int(s.Version)), I(int(s.Algo)), I(int(s.Hash)), s.storedIssuer()}
+}
+
+func critical(r *Rng, t byte) byte {
+	if r.Intn(5) == 0 {
+		return t | 0x80
+	}
+	return t
+}
+
+// subpackets the reader interprets, with the body lengths RFC 4880 5.2.3.x prescribes, and
+// subpackets it does not know (never critical)
+func randFiller(r *Rng, hashed bool) subPkt {
+	switch r.Intn(12) {
+	case 0:
+		return mkSub(r, 33, append([]byte{4}, r.Bytes(20)...)) // issuer fingerprint
+	case 1:
+		return mkSub(r, 28, []byte("a@example.org")) // signer's user id
+	case 2:
+		return mkSub(r, 20, r.Bytes([]int{8, 150, 190, 191, 192, 300}[r.Intn(6)])) // notation data, lengths around 191/192
+	case 3:
+		return mkSub(r, critical(r, []byte{3, 9}[r.Intn(2)]), r.Bytes(4))
+	case 4:
+		return mkSub(r, critical(r, []byte{11, 21, 22, 30}[r.Intn(4)]), r.Bytes(r.Intn(6)))
+	case 5:
+		return mkSub(r, critical(r, 25), r.Bytes(1))
+	case 6:
+		return mkSub(r, critical(r, []byte{27, 29}[r.Intn(2)]), r.Bytes(1+r.Intn(4)))
+	case 7:
+		if !hashed { // outside the hashed area only the issuer is interpreted: any length goes
+			return mkSub(r, []byte{3, 9, 25, 27, 29}[r.Intn(5)], r.Bytes(r.Intn(7)))
+		}
+		return mkSub(r, 7, r.Bytes(1)) // revocable
+	case 8:
+		return mkSub(r, byte(40+r.Intn(60)), r.Bytes(r.Intn(10))) // unassigned / private types
+	case 9:
+		return mkSub(r, 0, nil) // reserved type, empty body
+	default:
+		return mkSub(r, []byte{4, 5, 6, 10, 12, 23, 24, 26, 31}[r.Intn(9)], r.Bytes(1+r.Intn(8)))
+	}
+}
+
+// a version 2, 3 or 4 signature packet in a random header form; kind selects where the issuer lives
+func randGSig(r *Rng, kind int) gSig {
+	base := randSig(r, false)
+	s := gSig{Version: 4, SigType: base.SigType, Algo: base.Algo, Hash: base.Hash, Created: base.Created, Issuer: base.Issuer, HashTag: base.HashTag, MPIs: base.MPIs}
+	if kind%4 == 3 {
+		s.Version = byte(2 + r.Intn(2))
+		s.Algo = c19V3Algos[r.Intn(len(c19V3Algos))]
+		s.MPIs = nil
+		for i := 0; i < mpiCount(s.Algo); i++ {
+			s.MPIs = append(s.MPIs, r.Bytes(r.Intn(40)))
+		}
+	} else {
+		iss := func() subPkt { return mkSub(r, critical(r, 16), be64(randSig(r, false).Issuer)) }
+		ct := mkSub(r, critical(r, 2), be32(s.Created))
+		var h, u []subPkt
+		switch (kind / 4) % 8 {
+		case 0: // as rpm/gpg 1.x write it: issuer unhashed
+			u = append(u, iss())
+		case 1: // issuer hashed
+			h = append(h, iss())
+		case 2: // gpg 2.1+: fingerprint hashed, issuer unhashed
+			h = append(h, mkSub(r, 33, append([]byte{4}, r.Bytes(20)...)))
+			u = append(u, iss())
+		case 3: // only an issuer fingerprint: no issuer key ID is stored
+			h = append(h, mkSub(r, 33, append([]byte{4}, r.Bytes(20)...)))
+		case 4: // no issuer at all
+		case 5: // several issuers, in both areas: the last one counts
+			h = append(h, iss(), iss())
+			u = append(u, iss())
+		case 6: // two issuers in the hashed area
+			h = append(h, iss(), iss())
+		default: // two issuers in the unhashed area
+			u = append(u, iss(), iss())
+		}
+		for k := r.Intn(4); k > 0; k-- {
+			h = append(h, randFiller(r, true))
+		}
+		for k := r.Intn(3); k > 0; k-- {
+			u = append(u, randFiller(r, false))
+		}
+		h = append(h, ct)
+		// any order inside an area
+		for i := len(h) - 1; i > 0; i-- {
+			j := r.Intn(i + 1)
+			h[i], h[j] = h[j], h[i]
+		}
+		for i := len(u) - 1; i > 0; i-- {
+			j := r.Intn(i + 1)
+			u[i], u[j] = u[j], u[i]
+		}
+		s.Hashed, s.Unhash = h, u
+	}
+	// bit counts as real signatures have them: any value whose octet count is the MPI's length
+	s.Bits = nil
+	for _, x := range s.MPIs {
+		bits := 8 * len(x)
+		if len(x) > 0 {
+			bits -= r.Intn(8)
+		}
+		s.Bits = append(s.Bits, bits)
+	}
+	s.Form = randPForm(r, len(s.body()))
+	return s
+}
+
+func c19EmitGSig(c *Ctx, s gSig) {
+	b := s.bytes()
+	c.Emit("gsigenc", SL{s.sx()}, SB(b))
+	c.Emit("gsigwf", SL{s.sx()}, I(1))
+	c.Emit("gsigview", SL{s.sx()}, obsPacket(b))
+	c.Emit("sigpkt:wf", SL{SB(b), packetOracle([][]byte{b}), SL{s.pktTruth()}}, obsPacket(b))
+}
+
+// ---------------------------------------------------------------- arbitrary layouts
+
+type gEnt struct{ Tag, Type, Off, Cnt uint32 }
+
+type gHdr struct {
+	Version  byte
+	Reserved []byte
+	Index    []gEnt
+	Store    []byte
+}
+
+func (h gHdr) bytes() []byte {
+	out := []byte{0x8E, 0xAD, 0xE8, h.Version}
+	out = append(out, h.Reserved...)
+	out = append(out, be32(uint32(len(h.Index)))...)
+	out = append(out, be32(uint32(len(h.Store)))...)
+	for _, e := range h.Index {
+		out = append(out, be32(e.Tag)...)
+		out = append(out, be32(e.Type)...)
+		out = append(out, be32(e.Off)...)
+		out = append(out, be32(e.Cnt)...)
+	}
+	return append(out, h.Store...)
+}
+
+func (h gHdr) indexSx() Sx {
+	idx := SL{}
+	for _, e := range h.Index {
+		idx = append(idx, SL{I(int(e.Tag)), I(int(e.Type)), I(int(e.Off)), I(int(e.Cnt))})
+	}
+	return idx
+}
+func (h gHdr) sx() Sx     { return SL{I(int(h.Version)), SB(h.Reserved), h.indexSx(), SB(h.Store)} }
+func (h gHdr) declSx() Sx { return SL{I(int(h.Version)), h.indexSx(), SB(h.Store)} }
+
+type gPkg struct {
+	Major, Minor byte
+	LeadRest     []byte
+	Sig          gHdr
+	Pad          []byte
+	Main         gHdr
+	Payload      []byte
+}
+
+func (g gPkg) bytes() []byte {
+	out := []byte{0xED, 0xAB, 0xEE, 0xDB, g.Major, g.Minor}
+	out = append(out, g.LeadRest...)
+	out = append(out, g.Sig.bytes()...)
+	out = append(out, g.Pad...)
+	out = append(out, g.Main.bytes()...)
+	return append(out, g.Payload...)
+}
+
+func (g gPkg) sx() Sx {
+	return SL{I(int(g.Major)), I(int(g.Minor)), SB(g.LeadRest), g.Sig.sx(), SB(g.Pad), g.Main.sx(), SB(g.Payload)}
+}
+
+// something to be laid out in a store
+type lItem struct {
+	Tag, Type, Cnt uint32
+	Data           []byte
+	Align          int
+	Alias          int // >= 0: shares the data of that item, AliasOff octets into it
+	AliasOff       int
+	Whole          bool     // CHAR / INT8 / BIN entry that spans the whole store
+	Strs           []string // the strings of a string-typed item
+	Sig            *gSig    // the packet of a signature item
+	off            uint32
+}
+
+func strItem(tag, typ uint32, ss ...string) lItem {
+	e := strArrayEntry(tag, typ, ss...)
+	return lItem{Tag: tag, Type: typ, Cnt: e.Count, Data: e.Data, Alias: -1, Strs: ss}
+}
+func binItem(tag uint32, b []byte) lItem {
+	return lItem{Tag: tag, Type: 7, Cnt: uint32(len(b)), Data: b, Alias: -1}
+}
+
+var typeAlign = map[uint32]int{3: 2, 4: 4, 5: 8}
+var typeSize = map[uint32]int{1: 1, 2: 1, 3: 2, 4: 4, 5: 8, 7: 1}
+
+// an entry of the given type with a boundary or random count
+func randItemOfType(r *Rng, tag, typ uint32) lItem {
+	switch typ {
+	case 0:
+		return lItem{Tag: tag, Type: 0, Cnt: []uint32{0, 0, 1, 7}[r.Intn(4)], Alias: -1}
+	case 6:
+		return strItem(tag, 6, randIdent(r))
+	case 8, 9:
+		n := []int{0, 1, 1, 2, 5}[r.Intn(5)]
+		ss := []string{}
+		for i := 0; i < n; i++ {
+			ss = append(ss, randIdent(r))
+		}
+		return strItem(tag, typ, ss...)
+	}
+	cnt := []int{0, 1, 1, 2, 3, 1 + r.Intn(40)}[r.Intn(6)]
+	return lItem{Tag: tag, Type: typ, Cnt: uint32(cnt), Data: r.Bytes(cnt * typeSize[typ]), Align: typeAlign[typ], Alias: -1}
+}
+
+func randItem(r *Rng, tag uint32) lItem { return randItemOfType(r, tag, uint32(r.Intn(10))) }
+
+// lay the items out: data in a random order, rpm's alignment, gaps, shared data; the region
+// entry (mode 1: trailer at the end of the store as rpm 4 writes it, mode 2: trailer first,
+// mode 0: none, rpm 3.x) first in the index, the other entries in tag order or shuffled;
+// the store length is steered to the wanted residue mod 8
+func layOut(r *Rng, items []lItem, regionTag uint32, mode int, residue int) (gHdr, []lItem) {
+	var store []byte
+	junk := func(n int) {
+		for ; n > 0; n-- {
+			store = append(store, byte(1+r.Intn(255)))
+		}
+	}
+	nIdx := len(items)
+	if mode != 0 {
+		nIdx++
+	}
+	trailer := regionTrailer(regionTag, nIdx)
+	var regionOff uint32
+	if mode == 2 {
+		store = append(store, trailer...)
+	}
+	order := make([]int, 0, len(items))
+	for i := range items {
+		order = append(order, i)
+	}
+	for i := len(order) - 1; i > 0; i-- {
+		j := r.Intn(i + 1)
+		order[i], order[j] = order[j], order[i]
+	}
+	for _, i := range order {
+		it := &items[i]
+		if it.Alias >= 0 || it.Whole {
+			continue
+		}
+		if r.Intn(4) == 0 {
+			junk(1 + r.Intn(5))
+		}
+		if it.Align > 1 {
+			for len(store)%it.Align != 0 {
+				store = append(store, 0)
+			}
+		}
+		it.off = uint32(len(store))
+		store = append(store, it.Data...)
+	}
+	for i := range items {
+		if it := &items[i]; it.Alias >= 0 {
+			it.off = items[it.Alias].off + uint32(it.AliasOff)
+		}
+	}
+	// every entry must start inside the store: something follows the last empty item
+	tail := 0
+	if mode == 1 {
+		tail = len(trailer)
+	}
+	need := false
+	for _, it := range items {
+		if int(it.off) >= len(store) {
+			need = true
+		}
+	}
+	if need && tail == 0 {
+		junk(1)
+	}
+	for (len(store)+tail)%8 != residue && nIdx > 0 {
+		junk(1)
+	}
+	if mode == 1 {
+		regionOff = uint32(len(store))
+		store = append(store, trailer...)
+	}
+	for i := range items {
+		if it := &items[i]; it.Whole {
+			it.off, it.Cnt = 0, uint32(len(store))
+		}
+	}
+	h := gHdr{Version: 1, Reserved: []byte{0, 0, 0, 0}, Store: store}
+	if r.Intn(8) == 0 {
+		h.Version, h.Reserved = byte(r.Intn(256)), r.Bytes(4)
+	}
+	idx := append([]lItem{}, items...)
+	if r.Bool() { // tag order, as rpm writes the index
+		for i := 1; i < len(idx); i++ {
+			for j := i; j > 0 && idx[j-1].Tag > idx[j].Tag; j-- {
+				idx[j-1], idx[j] = idx[j], idx[j-1]
+			}
+		}
+	} else {
+		for i := len(idx) - 1; i > 0; i-- {
+			j := r.Intn(i + 1)
+			idx[i], idx[j] = idx[j], idx[i]
+		}
+	}
+	if mode != 0 {
+		h.Index = append(h.Index, gEnt{regionTag, 7, regionOff, 16})
+	}
+	for _, it := range idx {
+		h.Index = append(h.Index, gEnt{it.Tag, it.Type, it.off, it.Cnt})
+	}
+	return h, idx
+}
+
+func firstItem(idx []lItem, tag uint32) *lItem {
+	for i := range idx {
+		if idx[i].Tag == tag {
+			return &idx[i]
+		}
+	}
+	return nil
+}
+
+// a package in an arbitrary well-formed layout, what it stores for the spec checker (nil when
+// one of the tags RPMFile reads carries an unexpected type or count: partial description) and
+// the packets under the four signature tags
+func randLayout(r *Rng, n int) (g gPkg, truth Sx, sigs [4]*gSig) {
+	p := randPkg(r)
+	unknownTag := func() uint32 {
+		return []uint32{5000 + uint32(r.Intn(200)), 100, 1003, 1006, 1010, 1011, 1014, 1015, 1020, 1021, 1030, 1046, 1124, 1126, 0x7fffffff, 0xfffffff0, 1 << 20}[r.Intn(17)]
+	}
+	// ---- signature header
+	var sigItems []lItem
+	unexpected := false
+	retype := -1
+	if n%8 == 5 {
+		retype = r.Intn(9) // one of the tags RPMFile reads gets a random type
+	}
+	add := func(items *[]lItem, k int, it lItem) {
+		if k == retype {
+			t := uint32(r.Intn(10))
+			if k < 4 { // a signature tag: any type that does not hand octets to packet.Read
+				t = []uint32{0, 2, 3, 4, 5, 6, 8, 9}[r.Intn(8)]
+			}
+			if t != it.Type {
+				it = randItemOfType(r, it.Tag, t)
+				unexpected = true
+			}
+		}
+		*items = append(*items, it)
+	}
+	for i, t := range sigTags {
+		present := r.Intn(2) == 0
+		if n%8 == 1 {
+			present = true // all four signatures
+		}
+		if n%8 == 2 {
+			present = false // unsigned
+		}
+		if present {
+			s := randGSig(r, r.Intn(64))
+			it := binItem(t, s.bytes())
+			it.Sig = &s
+			add(&sigItems, i, it)
+			if r.Intn(10) == 0 { // the tag a second time: the first entry in the index counts
+				s2 := randGSig(r, r.Intn(64))
+				it2 := binItem(t, s2.bytes())
+				it2.Sig = &s2
+				sigItems = append(sigItems, it2)
+			}
+		}
+	}
+	if p.MD5 != nil {
+		add(&sigItems, 4, binItem(1004, p.MD5))
+	}
+	if p.SHA1 != nil {
+		add(&sigItems, 5, strItem(269, 6, *p.SHA1))
+	}
+	if p.SHA256 != nil {
+		add(&sigItems, 6, strItem(273, 6, *p.SHA256))
+	}
+	sigItems = append(sigItems, randItemOfType(r, 1000, 4), randItemOfType(r, 1007, 4))
+	if r.Bool() {
+		sigItems = append(sigItems, randItemOfType(r, 270, 5), randItemOfType(r, 271, 5))
+	}
+	if r.Bool() {
+		sigItems = append(sigItems, binItem(1008, make([]byte, 1+r.Intn(40))))
+	}
+	for k := r.Intn(4); k > 0; k-- {
+		sigItems = append(sigItems, randItem(r, unknownTag()))
+	}
+	// ---- main header
+	var mainItems []lItem
+	idType := func() uint32 { // rpm stores these as STRING; a string array / i18n string still has a first string
+		if r.Intn(8) == 0 {
+			return []uint32{8, 9}[r.Intn(2)]
+		}
+		return 6
+	}
+	idItem := func(tag uint32, v string) lItem {
+		t := idType()
+		if t != 6 && r.Bool() {
+			return strItem(tag, t, v, randIdent(r))
+		}
+		return strItem(tag, t, v)
+	}
+	add(&mainItems, 7, idItem(1000, p.Name))
+	mainItems = append(mainItems, idItem(1001, p.Version), idItem(1002, p.Release))
+	add(&mainItems, 8, idItem(1022, p.Arch))
+	if p.RPMVersion != nil {
+		mainItems = append(mainItems, strItem(1064, 6, *p.RPMVersion))
+	}
+	for t := uint32(0); t < 10; t++ { // every entry type
+		if r.Intn(3) != 0 || n%8 == 3 {
+			mainItems = append(mainItems, randItemOfType(r, unknownTag(), t))
+		}
+	}
+	if r.Intn(6) == 0 {
+		mainItems = append(mainItems, idItem(1000, randIdent(r))) // NAME a second time
+	}
+	// shared data: entries that point into the data of another entry
+	for _, items := range []*[]lItem{&sigItems, &mainItems} {
+		for k := r.Intn(3); k > 0; k-- {
+			j := r.Intn(len(*items))
+			src := (*items)[j]
+			if src.Alias >= 0 || len(src.Data) == 0 {
+				continue
+			}
+			switch {
+			case src.Type == 6 || src.Type == 8 || src.Type == 9:
+				if len(src.Strs) == 0 {
+					continue
+				}
+				o := r.Intn(len(src.Strs[0]) + 1) // a suffix of its first string
+				*items = append(*items, lItem{Tag: unknownTag(), Type: 6, Cnt: 1, Alias: j, AliasOff: o, Strs: []string{src.Strs[0][o:]}})
+			default:
+				o := r.Intn(len(src.Data))
+				c := r.Intn(len(src.Data) - o + 1)
+				*items = append(*items, lItem{Tag: unknownTag(), Type: []uint32{1, 2, 7}[r.Intn(3)], Cnt: uint32(c), Alias: j, AliasOff: o})
+			}
+		}
+	}
+	if r.Intn(4) == 0 {
+		mainItems = append(mainItems, lItem{Tag: unknownTag(), Type: []uint32{1, 2, 7}[r.Intn(3)], Alias: -1, Whole: true})
+	}
+	if r.Intn(6) == 0 {
+		sigItems = append(sigItems, lItem{Tag: unknownTag(), Type: []uint32{1, 2, 7}[r.Intn(3)], Alias: -1, Whole: true})
+	}
+	sigMode, mainMode := []int{0, 1, 1, 2}[r.Intn(4)], []int{0, 1, 1, 2}[r.Intn(4)]
+	if n%32 == 7 { // a signature header with no entries and an empty store
+		sigItems, sigMode = nil, 0
+	}
+	var sigIdx, mainIdx []lItem
+	g = gPkg{Major: p.Major, Minor: p.Minor, LeadRest: buildLead(p.Major, p.Minor, p.Name)[6:]}
+	g.Sig, sigIdx = layOut(r, sigItems, 62, sigMode, n%8)
+	g.Main, mainIdx = layOut(r, mainItems, 63, mainMode, (n/8)%8)
+	for len(g.Sig.Store)%8 != 0 && (len(g.Sig.Store)+len(g.Pad))%8 != 0 {
+		g.Pad = append(g.Pad, byte(r.Intn(3))) // rpm writes zeros; go-rpm does not look
+	}
+	g.Payload = r.Bytes((8-len(g.Main.Store)%8)%8 + r.Intn(16))
+	if len(g.Main.Store)+len(g.Payload) == 0 {
+		g.Payload = []byte{0}
+	}
+	// ---- what is stored
+	q := rpmPkg{}
+	str1 := func(idx []lItem, tag uint32) string {
+		it := firstItem(idx, tag)
+		if it == nil {
+			return ""
+		}
+		if (it.Type == 6 || it.Type == 8 || it.Type == 9) && len(it.Strs) > 0 {
+			return it.Strs[0]
+		}
+		unexpected = true
+		return ""
+	}
+	q.Name, q.Version, q.Release, q.Arch = str1(mainIdx, 1000), str1(mainIdx, 1001), str1(mainIdx, 1002), str1(mainIdx, 1022)
+	if it := firstItem(sigIdx, 1004); it != nil {
+		if it.Type == 7 {
+			q.MD5 = it.Data
+		} else {
+			unexpected = true
+		}
+	}
+	if it := firstItem(sigIdx, 269); it != nil {
+		v := str1(sigIdx, 269)
+		q.SHA1 = &v
+	}
+	if it := firstItem(sigIdx, 273); it != nil {
+		v := str1(sigIdx, 273)
+		q.SHA256 = &v
+	}
+	var st [4]Sx
+	for i, t := range sigTags {
+		it := firstItem(sigIdx, t)
+		if it == nil {
+			continue
+		}
+		if it.Sig != nil {
+			sigs[i] = it.Sig
+			q.Sigs[i] = &sigSpec{}
+			st[i] = it.Sig.truth()
+		} else {
+			unexpected = true
+		}
+	}
+	truth = q.truth(st)
+	if unexpected {
+		truth = SL{}
+	}
+	return
+}
+
+func c19EmitLayout(c *Ctx, tag string, g gPkg, truth Sx, sigs [4]*gSig) {
+	data := g.bytes()
+	ss := SL{}
+	for _, s := range sigs {
+		if s == nil {
+			ss = append(ss, SL{})
+		} else {
+			ss = append(ss, SL{s.sx()})
+		}
+	}
+	c.Emit("gencode", SL{g.sx()}, SB(data))
+	c.Emit("gwf", SL{g.sx(), ss}, I(1))
+	desc := obsDescribe(data)
+	c.Emit("greport", SL{g.sx(), ss}, desc)
+	lib, pf := obsLib(data)
+	c.Emit("layout:"+tag, SL{SB(data), SL{g.Sig.declSx(), g.Main.declSx()}}, lib)
+	c.Emit("describe:"+tag, SL{SB(data), packetOracle(sigCandidates(pf)), truth}, desc)
+}
+
 // ---------------------------------------------------------------- the generator
 
 func c19_u32p(v uint32) *uint32 { return &v }
@@ -900,6 +1666,25 @@ func genC19(c *Ctx) {
 		}
 	}
 
+	// ---------------- arbitrary well-formed layouts (Rpm.gencode / gpkg_ok / greport) ----------------
+	// every pair of store-length residues mod 8 within 64 consecutive cases
+	nLay := 128
+	if c.Thorough() {
+		nLay = 3200
+	}
+	for i := 0; i < nLay; i++ {
+		g, truth, sigs := randLayout(r, i)
+		c19EmitLayout(c, "layout", g, truth, sigs)
+	}
+	// ---------------- signature packets in every header form / version / subpacket arrangement ----------------
+	nG := 192
+	if c.Thorough() {
+		nG = 6000
+	}
+	for i := 0; i < nG; i++ {
+		c19EmitGSig(c, randGSig(r, i))
+	}
+
 	// ---------------- signature packets: forms the canonical writer does not produce ----------------
 	nSig := 150
 	if c.Thorough() {
@@ -938,6 +1723,11 @@ func genC19(c *Ctx) {
 			inner := sigV4Body([]byte{0x19, 0x18}[r.Intn(2)], 1, 8, append(append([]byte{}, ct...), subpacket(16, be64(r.U64()))...), nil, [2]byte{}, [][]byte{{1}})
 			hashed, unhashed = ct, append(append([]byte{}, iss...), subpacket(32, inner)...)
 			if inner[1] != 0x19 {
+				ok, tag = false, "v4-bad"
+			} else if r.Intn(3) == 0 { // an embedded signature that embeds one itself: rejected
+				inner2 := sigV4Body(0x19, 1, 8, append(append([]byte{}, ct...), subpacket(16, be64(r.U64()))...), nil, [2]byte{}, [][]byte{{1}})
+				inner = sigV4Body(0x19, 1, 8, append(append([]byte{}, ct...), subpacket(16, be64(r.U64()))...), subpacket(32, inner2), [2]byte{}, [][]byte{{1}})
+				hashed, unhashed = ct, append(append([]byte{}, iss...), subpacket(32, inner)...)
 				ok, tag = false, "v4-bad"
 			}
 		case 8: // the other subpackets the parser knows, with good and bad lengths
